@@ -27,6 +27,28 @@ for tc in ET.parse(xml).getroot().iter("testcase"):
     elif not skipped: passed.add(name)
 os.unlink(xml)
 regress = sorted(stable & failed)
+# unseeded-random tests exist in the suite (e.g. test_qam_demodulation_with_noise[16] fails ~9% of runs): re-run failures alone
+still = []
+for r in regress:
+    cls, name = r.split("::")
+    parts = cls.split(".")
+    # find the file: longest prefix that is a path
+    for cut in range(len(parts), 0, -1):
+        path = os.path.join(repo, *parts[:cut]) + ".py"
+        if os.path.exists(path):
+            node = os.path.relpath(path, repo) + "::" + "::".join(parts[cut:] + [name])
+            break
+    ok = False
+    for _ in range(2):
+        q = subprocess.run(["/venv/bin/python", "-m", "pytest", "-q", "-p", "no:cacheprovider", node], cwd=repo, env=env, capture_output=True, text=True)
+        if q.returncode == 0:
+            ok = True
+            break
+    if ok:
+        print("FLAKY (passed on re-run)", r)
+    else:
+        still.append(r)
+regress = still
 missing = sorted(stable - passed - failed) if not args else []
 print(f"stable_pass={len(stable)} passed_now={len(stable & passed)} regressions={len(regress)} missing={len(missing)}")
 for r in regress[:40]: print("REGRESSION", r)
